@@ -97,8 +97,7 @@ GNext == ph.r <= MaxRounds /\ (GEnqueue \/ GSign \/ GEvidence \/ GEvidenceBad \/
 Last == hist[Len(hist)]
 \* the incoming action is part of the view, so that rejected / no-op steps get a history of their own
 GView == <<IF res \in {"fail", "noop", "nobuild"} THEN Last ELSE <<>>, res, ph, msgs, txs, processed, live, deploy, active, user>>
-BaseId == IF hist[1].args.w = 0 THEN 1 ELSE 2
-GConstr == Len(hist) <= MaxOps /\ nextId <= BaseId + (IF Lean /\ hist[1].args.w = 1 THEN 0 ELSE MaxNew) /\ ph.r <= MaxRounds + 1
+GConstr == Len(hist) <= MaxOps /\ Cardinality({i \in DOMAIN hist : hist[i].act = "Enqueue"}) <= (IF Lean /\ hist[1].args.w = 1 THEN 0 ELSE MaxNew) /\ ph.r <= MaxRounds + 1
 EmitCond == Len(hist) >= 3 /\ (Last.act = "EndBlock" \/ res \in {"fail", "noop", "nobuild"})
 GNextC == (IF EmitCond THEN PrintT(<<"HIST", ToJson(hist)>>) ELSE TRUE) /\ GNext
 Emit == Len(hist) = EmitAt => PrintT(<<"HIST", ToJson(hist)>>)
